@@ -1,14 +1,1786 @@
-//! C11 — not built yet.
-use crate::engine::{Ctx, Property};
+//! C11 — WOFF2 decoding reconstructs the original font.
+//!
+//! Forward construction: font model → my glyf/loca/hmtx encoders (`fontgen::glyfgen`,
+//! `fontgen::basic`) → my WOFF2 encoder (`fontgen::woff2`, written from the W3C Recommendation,
+//! stored brotli meta-blocks) with free encoder choices → `allsorts::woff2::Woff2Font` /
+//! `FontData` → `table_provider(i)` → tables compared with the encoder's input: untransformed
+//! tables byte-identical, glyf/loca semantically through `refmodel::glyf_min`, hmtx per glyph,
+//! head modulo checkSumAdjustment / indexToLocFormat; per collection member.
+//! Side sections: exhaustive 255UInt16, UIntBase128 boundaries / rejections, all 128 triplet
+//! rows × payload samples through crafted one-glyph WOFF2 files, real fixtures.
+
+use crate::engine::{fixtures, CaseResult, Ctx, Fail, Property, Rec};
+use crate::fontgen::basic;
+use crate::fontgen::glyfgen::{self as gg, Component, Composite, Glyph, Simple, Xform};
+use crate::fontgen::sfnt;
+use crate::fontgen::woff2 as w2;
+use crate::refmodel::glyf_min::{self as gm, PComponent, PGlyph};
+use allsorts::binary::read::ReadScope;
+use allsorts::font_data::FontData;
+use allsorts::tables::{FontTableProvider, SfntVersion};
+use allsorts::woff2::{PackedU16, U32Base128, Woff2Font};
+use proptest::prelude::*;
+use std::collections::{BTreeMap, BTreeSet};
 
 pub struct C11;
+
+type Tag = [u8; 4];
+const TTCF: u32 = 0x7474_6366;
+
+/// Known finding (defect model): with hmtx flag bit 1 the leftSideBearing[] array is rebuilt from
+/// the xMin of the glyphs 0..numGlyphs instead of numberOfHMetrics..numGlyphs.
+const KNOWN_HMTX: &str = "hmtx-lsb-array-not-skipping-long-metrics";
+
+fn fail(sig: &str, msg: String) -> Fail {
+    Fail::new(format!("C11:{}", sig), msg)
+}
+
+// =========================================================================================
+// raw (generated) model
+
+/// (kind, a, b, bits): bits 0/1 = negative x/y, bit 2 = on-curve
+type PtRaw = (u8, u16, u16, u8);
+
+#[derive(Clone, Debug)]
+pub enum GlyphRaw {
+    Empty,
+    EmptyHeader,
+    Simple {
+        contours: Vec<Vec<PtRaw>>,
+        /// >= 65000: the first contour is blown up to 253..900 points (255UInt16 forms of nPoints)
+        big_sel: u16,
+        instr_sel: u16,
+        /// 0,1: stored bbox = computed; 2: small perturbation; 3: arbitrary
+        bbox_mode: u8,
+        bbox_noise: (i16, i16, i16, i16),
+        /// source glyf encoding style bits
+        style: u8,
+    },
+    Composite {
+        comps: Vec<CompRaw>,
+        instr_sel: u16,
+        bbox: (i16, i16, i16, i16),
+    },
+}
+
+#[derive(Clone, Debug)]
+pub struct CompRaw {
+    misc: u16,
+    words: bool,
+    glyph: u16,
+    a1: u16,
+    a2: u16,
+    xkind: u8,
+    xf: (i16, i16, i16, i16),
+}
+
+#[derive(Clone, Debug)]
+pub struct MetricsRaw {
+    adv: Vec<u16>,
+    lsb_noise: Vec<i16>,
+    /// 0,4: lsb = xMin everywhere; 1: proportional part only; 2: monospaced tail only; 3: none; 5: all but one
+    lsb_mode: u8,
+    /// 0: 1, 1: n/2, 2: n, 3: 1 + r % n
+    nhm_sel: u8,
+    r: u16,
+}
+
+#[derive(Clone, Debug)]
+pub struct FontRaw {
+    glyphs: Vec<GlyphRaw>,
+    metrics: MetricsRaw,
+    long_loca: bool,
+    align_sel: u8,
+    /// (tag selector, content)
+    extras: Vec<(u8, Vec<u8>)>,
+    /// 0: CFF flavoured (no glyf), else TrueType
+    outline_sel: u8,
+    flavour_true: bool,
+    /// adds a 66–70 KB table (brotli MLEN with more than 4 nibbles)
+    big_table: u8,
+}
+
+#[derive(Clone, Debug)]
+pub enum MemberRaw {
+    /// shares glyf/loca/maxp with the base font; own hmtx/hhea (and optionally own head)
+    Sibling { metrics: Option<MetricsRaw>, own_head: bool, share_mask: u8 },
+    /// a complete second font; cmap/name/OS2/post shared with the base per mask
+    Independent { font: FontRaw, share_mask: u8 },
+}
+
+#[derive(Clone, Debug)]
+pub struct CollRaw {
+    extra: Vec<MemberRaw>,
+    v2: bool,
+    shuffle_indices: bool,
+}
+
+#[derive(Clone, Debug)]
+pub struct EncRaw {
+    /// per glyph group: 0 = null transform (3), else transform 0
+    glyf_xform: Vec<u8>,
+    /// per hmtx table: wanted flag bits (masked by what is legal)
+    hmtx_want: Vec<u8>,
+    /// transform hmtx although glyf is null-transformed (soft probe, see rule())
+    hmtx_only_probe: u8,
+    order: Vec<u16>,
+    explicit_mask: u32,
+    choices: Vec<u8>,
+    bbox_choose: bool,
+    wbits_sel: u8,
+    chunks: Vec<u32>,
+    meta_every: u8,
+    meta_skip: u8,
+    version: (u16, u16),
+    metadata: Option<Vec<u8>>,
+    private: Vec<u8>,
+    via_fontdata: bool,
+}
+
+#[derive(Clone, Debug)]
+pub struct Case {
+    font: FontRaw,
+    coll: Option<CollRaw>,
+    enc: EncRaw,
+}
+
+// =========================================================================================
+// strategies
+
+fn pt_raw() -> impl Strategy<Value = PtRaw> {
+    (0u8..16, any::<u16>(), any::<u16>(), 0u8..8)
+}
+
+fn bbox_raw() -> impl Strategy<Value = (i16, i16, i16, i16)> {
+    prop_oneof![
+        3 => (-3i16..4, -3i16..4, -3i16..4, -3i16..4),
+        2 => (any::<i16>(), any::<i16>(), any::<i16>(), any::<i16>()),
+        1 => (-2000i16..2000, -2000i16..2000, -2000i16..2000, -2000i16..2000),
+    ]
+}
+
+fn sel16(p_special_permille: u32) -> impl Strategy<Value = u16> {
+    // a u16 selector whose top range (>= 65000) is taken with the given probability
+    prop_oneof![
+        (1000 - p_special_permille) => 0u16..65000,
+        p_special_permille => 65000u16..=65535,
+    ]
+}
+
+fn comp_raw() -> impl Strategy<Value = CompRaw> {
+    (any::<u16>(), any::<bool>(), any::<u16>(), any::<u16>(), any::<u16>(), 0u8..4, (any::<i16>(), any::<i16>(), any::<i16>(), any::<i16>()))
+        .prop_map(|(misc, words, glyph, a1, a2, xkind, xf)| CompRaw { misc, words, glyph, a1, a2, xkind, xf })
+}
+
+fn glyph_raw() -> impl Strategy<Value = GlyphRaw> {
+    let simple = (
+        proptest::collection::vec(proptest::collection::vec(pt_raw(), 1..7), 1..5),
+        sel16(8),
+        sel16(60),
+        0u8..4,
+        bbox_raw(),
+        0u8..8,
+    )
+        .prop_map(|(contours, big_sel, instr_sel, bbox_mode, bbox_noise, style)| GlyphRaw::Simple {
+            contours,
+            big_sel,
+            instr_sel,
+            bbox_mode,
+            bbox_noise,
+            style,
+        });
+    let composite = (proptest::collection::vec(comp_raw(), 1..5), sel16(60), bbox_raw())
+        .prop_map(|(comps, instr_sel, bbox)| GlyphRaw::Composite { comps, instr_sel, bbox });
+    prop_oneof![
+        70 => simple,
+        16 => composite,
+        11 => Just(GlyphRaw::Empty),
+        3 => Just(GlyphRaw::EmptyHeader),
+    ]
+}
+
+fn metrics_raw() -> impl Strategy<Value = MetricsRaw> {
+    (
+        proptest::collection::vec(any::<u16>(), 1..6),
+        proptest::collection::vec(prop_oneof![2 => -40i16..40, 1 => any::<i16>()], 1..6),
+        0u8..6,
+        0u8..4,
+        any::<u16>(),
+    )
+        .prop_map(|(adv, lsb_noise, lsb_mode, nhm_sel, r)| MetricsRaw { adv, lsb_noise, lsb_mode, nhm_sel, r })
+}
+
+fn font_raw(small: bool) -> BoxedStrategy<FontRaw> {
+    let count = if small {
+        prop_oneof![1usize..3, 1usize..9].boxed()
+    } else {
+        prop_oneof![
+            4 => 1usize..12,
+            4 => 12usize..44,
+            1 => 30usize..36,
+            1 => 62usize..68,
+        ]
+        .boxed()
+    };
+    (
+        count.prop_flat_map(|n| proptest::collection::vec(glyph_raw(), n..=n)),
+        metrics_raw(),
+        any::<bool>(),
+        0u8..3,
+        proptest::collection::vec((0u8..16, proptest::collection::vec(any::<u8>(), 1..24)), 0..4),
+        0u8..12,
+        prop::bool::weighted(0.1),
+        0u8..48,
+    )
+        .prop_map(|(glyphs, metrics, long_loca, align_sel, extras, outline_sel, flavour_true, big_table)| FontRaw {
+            glyphs,
+            metrics,
+            long_loca,
+            align_sel,
+            extras,
+            outline_sel,
+            flavour_true,
+            big_table,
+        })
+        .boxed()
+}
+
+fn member_raw() -> impl Strategy<Value = MemberRaw> {
+    prop_oneof![
+        (proptest::option::weighted(0.8, metrics_raw()), any::<bool>(), any::<u8>())
+            .prop_map(|(metrics, own_head, share_mask)| MemberRaw::Sibling { metrics, own_head, share_mask }),
+        (font_raw(true), any::<u8>()).prop_map(|(font, share_mask)| MemberRaw::Independent { font, share_mask }),
+    ]
+}
+
+fn enc_raw() -> impl Strategy<Value = EncRaw> {
+    let chunk = prop_oneof![
+        2 => 1u32..64,
+        3 => 64u32..4096,
+        1 => Just(65535u32),
+        2 => Just(65536u32),
+        1 => 65537u32..200_000,
+    ];
+    (
+        (
+            proptest::collection::vec(0u8..5, 3),
+            proptest::collection::vec(0u8..4, 3),
+            0u8..16,
+            proptest::collection::vec(any::<u16>(), 0..8),
+            prop_oneof![2 => Just(0u32), 1 => any::<u32>(), 1 => Just(u32::MAX)],
+            proptest::collection::vec(any::<u8>(), 0..24),
+            any::<bool>(),
+        ),
+        (
+            0u8..20,
+            proptest::collection::vec(chunk, 1..4),
+            0u8..4,
+            0u8..6,
+            (any::<u16>(), any::<u16>()),
+            proptest::option::weighted(0.15, proptest::collection::vec(0x20u8..0x7F, 1..40)),
+            proptest::collection::vec(any::<u8>(), 0..6),
+            any::<bool>(),
+        ),
+    )
+        .prop_map(
+            |(
+                (glyf_xform, hmtx_want, hmtx_only_probe, order, explicit_mask, choices, bbox_choose),
+                (wbits_sel, chunks, meta_every, meta_skip, version, metadata, private, via_fontdata),
+            )| EncRaw {
+                glyf_xform,
+                hmtx_want,
+                hmtx_only_probe,
+                order,
+                explicit_mask,
+                choices,
+                bbox_choose,
+                wbits_sel,
+                chunks,
+                meta_every,
+                meta_skip,
+                version,
+                metadata,
+                private,
+                via_fontdata,
+            },
+        )
+}
+
+pub fn case_strategy() -> impl Strategy<Value = Case> {
+    let coll = proptest::option::weighted(
+        0.3,
+        (proptest::collection::vec(member_raw(), 0..3), any::<bool>(), prop::bool::weighted(0.3))
+            .prop_map(|(extra, v2, shuffle_indices)| CollRaw { extra, v2, shuffle_indices }),
+    );
+    (font_raw(false), coll, enc_raw()).prop_map(|(font, coll, enc)| Case { font, coll, enc })
+}
+
+// =========================================================================================
+// resolution: raw -> glyph model -> tables
+
+const BOUNDARY: [i32; 26] =
+    [0, 1, 15, 16, 17, 32, 33, 48, 49, 64, 65, 255, 256, 257, 512, 513, 768, 769, 1023, 1024, 1279, 1280, 4095, 4096, 32766, 32767];
+
+fn magnitudes(p: &PtRaw) -> (i32, i32) {
+    let (k, a, b, _) = *p;
+    let (a, b) = (a as i32, b as i32);
+    match k {
+        0..=2 => {
+            let m = a % 1280;
+            if b & 1 == 0 {
+                (0, m)
+            } else {
+                (m, 0)
+            }
+        }
+        3..=6 => (1 + a % 64, 1 + b % 64),
+        7..=10 => (1 + a % 768, 1 + b % 768),
+        11..=12 => (a % 4096, b % 4096),
+        13 => (a % 32768, b % 32768),
+        14 => (BOUNDARY[a as usize % BOUNDARY.len()], BOUNDARY[b as usize % BOUNDARY.len()]),
+        _ => (
+            if a % 16 == 0 { 32768 } else { BOUNDARY[a as usize % BOUNDARY.len()] },
+            if b % 16 == 0 { 32768 } else { BOUNDARY[b as usize % BOUNDARY.len()] },
+        ),
+    }
+}
+
+/// next coordinate: |delta| = mag in the wanted direction where the i16 range allows it
+/// (32768 exists only as the delta -32768)
+fn step(cur: i32, mag: i32, neg: bool) -> i32 {
+    let mut d = if neg || mag == 32768 { -mag } else { mag };
+    let mut n = cur + d;
+    if !(-32768..=32767).contains(&n) {
+        d = -d;
+        if d == 32768 {
+            d = 32767;
+        }
+        n = cur + d;
+    }
+    if !(-32768..=32767).contains(&n) {
+        n = cur;
+    }
+    n
+}
+
+const INSTR_LENS: [usize; 12] = [252, 253, 254, 505, 506, 507, 508, 509, 761, 762, 763, 1500];
+const BIG_CONTOURS: [usize; 10] = [253, 254, 505, 506, 508, 509, 761, 762, 763, 900];
+
+fn instr_bytes(sel: u16) -> Vec<u8> {
+    let len = if sel >= 65000 {
+        INSTR_LENS[(sel - 65000) as usize % INSTR_LENS.len()]
+    } else if sel % 2 == 0 {
+        0
+    } else {
+        ((sel / 2) % 7) as usize
+    };
+    (0..len).map(|i| (sel as usize).wrapping_mul(31).wrapping_add(i * 7) as u8).collect()
+}
+
+fn resolve_glyph(g: &GlyphRaw, num_glyphs: usize) -> Glyph {
+    match g {
+        GlyphRaw::Empty => Glyph::Empty,
+        GlyphRaw::EmptyHeader => Glyph::EmptyHeader,
+        GlyphRaw::Simple { contours, big_sel, instr_sel, bbox_mode, bbox_noise, .. } => {
+            let (mut x, mut y) = (0i32, 0i32);
+            let mut out: Vec<Vec<gg::Pt>> = Vec::new();
+            for (ci, c) in contours.iter().enumerate() {
+                let total = if ci == 0 && *big_sel >= 65000 {
+                    BIG_CONTOURS[(*big_sel - 65000) as usize % BIG_CONTOURS.len()]
+                } else {
+                    c.len()
+                };
+                let mut pts = Vec::with_capacity(total);
+                for k in 0..total {
+                    let p = &c[k % c.len()];
+                    // later cycles of a blown-up contour vary the magnitudes a little
+                    let cyc = (k / c.len()) as u16;
+                    let p2 = (p.0, p.1.wrapping_add(cyc.wrapping_mul(37)), p.2.wrapping_add(cyc.wrapping_mul(101)), p.3 ^ (cyc as u8 & 3));
+                    let (mx, my) = magnitudes(&p2);
+                    x = step(x, mx, p2.3 & 1 != 0);
+                    y = step(y, my, p2.3 & 2 != 0);
+                    pts.push((x as i16, y as i16, p2.3 & 4 != 0));
+                }
+                out.push(pts);
+            }
+            let mut s = Simple { contours: out, instructions: instr_bytes(*instr_sel), bbox: (0, 0, 0, 0) };
+            let cb = s.computed_bbox();
+            s.bbox = match bbox_mode {
+                0 | 1 => cb,
+                2 => {
+                    let n = bbox_noise;
+                    let adj = |v: i16, d: i16| v.saturating_add(d % 4);
+                    let b = (adj(cb.0, n.0), adj(cb.1, n.1), adj(cb.2, n.2), adj(cb.3, n.3));
+                    if b == cb {
+                        (cb.0.saturating_sub(1), cb.1, cb.2, cb.3.saturating_add(1))
+                    } else {
+                        b
+                    }
+                }
+                _ => *bbox_noise,
+            };
+            Glyph::Simple(s)
+        }
+        GlyphRaw::Composite { comps, instr_sel, bbox } => {
+            let components = comps
+                .iter()
+                .map(|c| {
+                    let mut misc = c.misc & gg::FREE_COMPONENT_FLAGS;
+                    if misc & gg::SCALED_COMPONENT_OFFSET != 0 && misc & gg::UNSCALED_COMPONENT_OFFSET != 0 {
+                        misc &= !gg::UNSCALED_COMPONENT_OFFSET;
+                    }
+                    let xy = misc & gg::ARGS_ARE_XY_VALUES != 0;
+                    let conv = |a: u16| -> i32 {
+                        match (c.words, xy) {
+                            (true, true) => a as i16 as i32,
+                            (true, false) => a as i32,
+                            (false, true) => a as u8 as i8 as i32,
+                            (false, false) => a as u8 as i32,
+                        }
+                    };
+                    Component {
+                        misc_flags: misc,
+                        words: c.words,
+                        glyph: (c.glyph as usize % num_glyphs.max(1)) as u16,
+                        arg1: conv(c.a1),
+                        arg2: conv(c.a2),
+                        xform: match c.xkind {
+                            0 => Xform::None,
+                            1 => Xform::Scale(c.xf.0),
+                            2 => Xform::XY(c.xf.0, c.xf.1),
+                            _ => Xform::Matrix(c.xf.0, c.xf.1, c.xf.2, c.xf.3),
+                        },
+                    }
+                })
+                .collect();
+            let instructions = if *instr_sel < 65000 && instr_sel % 3 == 0 { None } else { Some(instr_bytes(*instr_sel)) };
+            Glyph::Composite(Composite { components, instructions, bbox: *bbox })
+        }
+    }
+}
+
+pub fn expected_pglyph(g: &Glyph) -> PGlyph {
+    match g {
+        Glyph::Empty | Glyph::EmptyHeader => PGlyph::Empty,
+        Glyph::Simple(s) => PGlyph::Simple {
+            bbox: s.bbox,
+            contours: s.contours.iter().map(|c| c.iter().map(|p| (p.0 as i32, p.1 as i32, p.2)).collect()).collect(),
+            instructions: s.instructions.clone(),
+        },
+        Glyph::Composite(c) => {
+            let last = c.components.len() - 1;
+            PGlyph::Composite {
+                bbox: c.bbox,
+                components: c
+                    .components
+                    .iter()
+                    .enumerate()
+                    .map(|(i, k)| PComponent {
+                        flags: k.flags(i != last, i == last && c.instructions.is_some()),
+                        glyph: k.glyph,
+                        arg1: k.arg1,
+                        arg2: k.arg2,
+                        xform: match k.xform {
+                            Xform::None => vec![],
+                            Xform::Scale(s) => vec![s],
+                            Xform::XY(x, y) => vec![x, y],
+                            Xform::Matrix(a, b, cc, d) => vec![a, b, cc, d],
+                        },
+                    })
+                    .collect(),
+                instructions: c.instructions.clone(),
+            }
+        }
+    }
+}
+
+/// glyf + loca of one glyph set
+#[derive(Clone, Debug)]
+pub struct Group {
+    pub glyphs: Vec<Glyph>,
+    pub long: bool,
+    pub glyf: Vec<u8>,
+    pub loca: Vec<u8>,
+}
+
+#[derive(Clone, Debug)]
+pub enum DKind {
+    Plain,
+    Glyf(usize),
+    Loca(usize),
+    Hmtx { group: Option<usize>, metrics: Vec<(u16, i16)>, nhm: usize, legal: u8 },
+}
+
+/// a distinct table of the file (shared tables appear once)
+#[derive(Clone, Debug)]
+pub struct DTable {
+    pub tag: Tag,
+    pub data: Vec<u8>,
+    pub kind: DKind,
+}
+
+#[derive(Clone, Debug)]
+pub struct Member {
+    pub flavour: u32,
+    /// indices into `Built::dtables`
+    pub tables: Vec<usize>,
+    pub group: Option<usize>,
+}
+
+#[derive(Clone, Debug, Default)]
+pub struct Built {
+    pub groups: Vec<Group>,
+    pub dtables: Vec<DTable>,
+    pub members: Vec<Member>,
+}
+
+const EXTRA_TAGS: [&[u8; 4]; 16] = [
+    b"cvt ", b"fpgm", b"prep", b"gasp", b"GSUB", b"GPOS", b"GDEF", b"kern", b"ZZZZ", b"abcd", b"meta", b"glyx", b"Sill", b"Zapf", b"locb",
+    b"hmtX",
+];
+
+fn resolve_metrics(m: &MetricsRaw, glyphs: Option<&[Glyph]>, n: usize) -> (Vec<(u16, i16)>, usize, u8) {
+    let nhm = match m.nhm_sel {
+        0 => 1,
+        1 => (n / 2).max(1),
+        2 => n,
+        _ => 1 + m.r as usize % n,
+    };
+    let odd = m.r as usize % n;
+    let mut v = Vec::with_capacity(n);
+    for i in 0..n {
+        let xmin = glyphs.map(|g| g[i].x_min()).unwrap_or(0);
+        let noise = m.lsb_noise[i % m.lsb_noise.len()];
+        let lsb = match m.lsb_mode {
+            0 | 4 => xmin,
+            1 => {
+                if i < nhm {
+                    xmin
+                } else {
+                    noise
+                }
+            }
+            2 => {
+                if i >= nhm {
+                    xmin
+                } else {
+                    noise
+                }
+            }
+            3 => noise,
+            _ => {
+                if i == odd {
+                    xmin.wrapping_add(1 + (noise & 7))
+                } else {
+                    xmin
+                }
+            }
+        };
+        let adv = if i < nhm { m.adv[i % m.adv.len()] } else { m.adv[(nhm - 1) % m.adv.len()] };
+        v.push((adv, lsb));
+    }
+    let mut legal = 0u8;
+    if let Some(g) = glyphs {
+        if (0..nhm).all(|i| v[i].1 == g[i].x_min()) {
+            legal |= w2::HMTX_NO_PROPORTIONAL_LSB;
+        }
+        if (nhm..n).all(|i| v[i].1 == g[i].x_min()) {
+            legal |= w2::HMTX_NO_MONOSPACE_LSB;
+        }
+    }
+    (v, nhm, legal)
+}
+
+fn push(b: &mut Built, tag: Tag, data: Vec<u8>, kind: DKind) -> usize {
+    b.dtables.push(DTable { tag, data, kind });
+    b.dtables.len() - 1
+}
+
+fn head_table(long: bool, revision: u32) -> Vec<u8> {
+    let mut h = basic::head(1000, long, (0, -200, 1000, 800));
+    h[4..8].copy_from_slice(&revision.to_be_bytes());
+    // a non-zero checkSumAdjustment, as in a real font (the decoder is free to change it)
+    h[8..12].copy_from_slice(&0xB1B0_AFBAu32.wrapping_sub(revision).to_be_bytes());
+    h
+}
+
+/// Build the tables of one complete font and register them; returns the member.
+fn build_font(b: &mut Built, f: &FontRaw, shared_misc: Option<(&Member, u8)>) -> Member {
+    let n = f.glyphs.len();
+    let cff = f.outline_sel == 0;
+    let mut tables: Vec<usize> = Vec::new();
+    let group = if cff {
+        None
+    } else {
+        let glyphs: Vec<Glyph> = f.glyphs.iter().map(|g| resolve_glyph(g, n)).collect();
+        let styles: Vec<u8> = f
+            .glyphs
+            .iter()
+            .map(|g| match g {
+                GlyphRaw::Simple { style, .. } => *style,
+                _ => 0,
+            })
+            .collect();
+        let align = [1usize, 2, 4][f.align_sel as usize % 3];
+        let mut long = f.long_loca;
+        let (mut glyf, mut loca) = gg::encode_glyf_loca(&glyphs, &styles, long, align);
+        if !long && glyf.len() > 131_070 {
+            long = true;
+            let r = gg::encode_glyf_loca(&glyphs, &styles, long, align);
+            glyf = r.0;
+            loca = r.1;
+        }
+        b.groups.push(Group { glyphs, long, glyf, loca });
+        Some(b.groups.len() - 1)
+    };
+    let long = group.map(|g| b.groups[g].long).unwrap_or(false);
+    let (metrics, nhm, legal) = resolve_metrics(&f.metrics, group.map(|g| &b.groups[g].glyphs[..]), n);
+    let adv_max = metrics.iter().map(|m| m.0).max().unwrap_or(0);
+    let revision = 0x0001_0000 + b.members.len() as u32;
+    tables.push(push(b, *b"head", head_table(long, revision), DKind::Plain));
+    tables.push(push(b, *b"hhea", basic::hhea(800, -200, adv_max, nhm as u16), DKind::Plain));
+    tables.push(push(b, *b"maxp", if cff { basic::maxp_v05(n as u16) } else { basic::maxp_v1(n as u16) }, DKind::Plain));
+    tables.push(push(b, *b"hmtx", basic::hmtx(&metrics, nhm as u16), DKind::Hmtx { group, metrics, nhm, legal }));
+    if let Some(g) = group {
+        let (glyf, loca) = (b.groups[g].glyf.clone(), b.groups[g].loca.clone());
+        tables.push(push(b, *b"glyf", glyf, DKind::Glyf(g)));
+        tables.push(push(b, *b"loca", loca, DKind::Loca(g)));
+    } else {
+        let cff_bytes: Vec<u8> = (0..40 + n).map(|i| (i * 13 + 1) as u8).collect();
+        tables.push(push(b, *b"CFF ", cff_bytes, DKind::Plain));
+    }
+    // misc tables: shared with the base font per mask, else own copies
+    let mut cmap = BTreeMap::new();
+    cmap.insert(0x41u16, (n as u16).saturating_sub(1));
+    let misc: [(Tag, Vec<u8>); 4] = [
+        (*b"cmap", basic::cmap_table(&[(3, 1, basic::cmap_format4(&cmap))])),
+        (*b"name", basic::name_minimal()),
+        (*b"OS/2", basic::os2_v4(0x41, 0x41, 400)),
+        (*b"post", basic::post_v3()),
+    ];
+    for (i, (tag, data)) in misc.into_iter().enumerate() {
+        let shared = shared_misc.and_then(|(base, mask)| {
+            if mask & (1 << i) != 0 {
+                base.tables.iter().copied().find(|t| b.dtables[*t].tag == tag)
+            } else {
+                None
+            }
+        });
+        match shared {
+            Some(t) => tables.push(t),
+            None => tables.push(push(b, tag, data, DKind::Plain)),
+        }
+    }
+    let mut seen: BTreeSet<Tag> = tables.iter().map(|t| b.dtables[*t].tag).collect();
+    for (sel, data) in &f.extras {
+        let tag = *EXTRA_TAGS[*sel as usize % EXTRA_TAGS.len()];
+        if seen.insert(tag) {
+            tables.push(push(b, tag, data.clone(), DKind::Plain));
+        }
+    }
+    if f.big_table == 1 {
+        let len = 66_000 + (f.metrics.r as usize % 4000);
+        let data: Vec<u8> = (0..len).map(|i| (i ^ (i >> 8)) as u8).collect();
+        tables.push(push(b, *b"BIGT", data, DKind::Plain));
+    }
+    let flavour = if cff {
+        sfnt::OTTO
+    } else if f.flavour_true {
+        sfnt::TRUE
+    } else {
+        sfnt::TTF
+    };
+    Member { flavour, tables, group }
+}
+
+fn build_sibling(b: &mut Built, base: &Member, metrics: &Option<MetricsRaw>, own_head: bool, share_mask: u8) -> Member {
+    let mut tables = Vec::new();
+    let n = base.group.map(|g| b.groups[g].glyphs.len());
+    for &t in &base.tables {
+        let tag = b.dtables[t].tag;
+        match &tag {
+            b"hmtx" | b"hhea" if metrics.is_some() && n.is_some() => {}
+            b"head" if own_head => {
+                let mut h = b.dtables[t].data.clone();
+                let revision = 0x0002_0000u32 + b.members.len() as u32;
+                h[4..8].copy_from_slice(&revision.to_be_bytes());
+                tables.push(push(b, tag, h, DKind::Plain));
+            }
+            b"name" | b"OS/2" | b"post" | b"cmap" if share_mask & 0x10 != 0 && share_mask & 1 == 0 => {
+                // an own copy with identical content (a separate directory entry)
+                let d = b.dtables[t].data.clone();
+                tables.push(push(b, tag, d, DKind::Plain));
+            }
+            _ => tables.push(t),
+        }
+    }
+    if let (Some(m), Some(n)) = (metrics, n) {
+        let g = base.group.unwrap();
+        let (metrics, nhm, legal) = resolve_metrics(m, Some(&b.groups[g].glyphs[..]), n);
+        let adv_max = metrics.iter().map(|m| m.0).max().unwrap_or(0);
+        tables.push(push(b, *b"hhea", basic::hhea(800, -200, adv_max, nhm as u16), DKind::Plain));
+        tables.push(push(b, *b"hmtx", basic::hmtx(&metrics, nhm as u16), DKind::Hmtx { group: Some(g), metrics, nhm, legal }));
+    }
+    Member { flavour: base.flavour, tables, group: base.group }
+}
+
+pub fn build(case: &Case) -> Built {
+    let mut b = Built::default();
+    let base = build_font(&mut b, &case.font, None);
+    b.members.push(base.clone());
+    if let Some(c) = &case.coll {
+        for m in &c.extra {
+            let member = match m {
+                MemberRaw::Sibling { metrics, own_head, share_mask } => build_sibling(&mut b, &base, metrics, *own_head, *share_mask),
+                MemberRaw::Independent { font, share_mask } => build_font(&mut b, font, Some((&base, *share_mask))),
+            };
+            b.members.push(member);
+        }
+    }
+    b
+}
+
+// =========================================================================================
+// encoding plan
+
+#[derive(Clone, Debug)]
+pub struct Plan {
+    pub group_xf: Vec<bool>,
+    /// per dtable: hmtx transform flags (0 = not transformed)
+    pub hmtx_flags: Vec<u8>,
+    /// dtable indices in directory order
+    pub order: Vec<usize>,
+    pub probe_hmtx_only: bool,
+}
+
+fn plan(case: &Case, b: &Built) -> Plan {
+    let e = &case.enc;
+    let group_xf: Vec<bool> = (0..b.groups.len()).map(|g| e.glyf_xform[g % e.glyf_xform.len()] != 0).collect();
+    let probe = e.hmtx_only_probe == 0;
+    let mut hmtx_flags = vec![0u8; b.dtables.len()];
+    let mut k = 0;
+    for (i, t) in b.dtables.iter().enumerate() {
+        if let DKind::Hmtx { group: Some(g), legal, .. } = &t.kind {
+            let want = e.hmtx_want[k % e.hmtx_want.len()];
+            k += 1;
+            if group_xf[*g] || probe {
+                hmtx_flags[i] = want & legal;
+            }
+        }
+    }
+    // directory order: sort by generated keys, then move every loca directly behind its glyf
+    let mut idx: Vec<usize> = (0..b.dtables.len()).collect();
+    if !e.order.is_empty() {
+        idx.sort_by_key(|i| (e.order[i % e.order.len()].wrapping_mul(*i as u16 + 1), *i));
+    }
+    let mut order = Vec::with_capacity(idx.len());
+    for i in idx {
+        match b.dtables[i].kind {
+            DKind::Loca(_) => {}
+            DKind::Glyf(g) => {
+                order.push(i);
+                let l = b.dtables.iter().position(|t| matches!(t.kind, DKind::Loca(x) if x == g)).unwrap();
+                order.push(l);
+            }
+            _ => order.push(i),
+        }
+    }
+    Plan { group_xf, hmtx_flags, order, probe_hmtx_only: probe }
+}
+
+pub struct Encoded {
+    pub bytes: Vec<u8>,
+    pub stats: w2::XStats,
+}
+
+fn encode(case: &Case, b: &Built, p: &Plan, forced: Option<&w2::ForcedTriplets>) -> Encoded {
+    let e = &case.enc;
+    let mut ch = w2::Choices::new(&e.choices);
+    let mut st = w2::XStats::new();
+    let policy = if e.bbox_choose { w2::BboxPolicy::Choose } else { w2::BboxPolicy::ElideWhenEqual };
+    let mut dir_pos = vec![0u16; b.dtables.len()];
+    let mut tabs = Vec::with_capacity(p.order.len());
+    for (pos, &i) in p.order.iter().enumerate() {
+        dir_pos[i] = pos as u16;
+        let t = &b.dtables[i];
+        let explicit = e.explicit_mask & (1 << (i % 32)) != 0;
+        let et = match &t.kind {
+            DKind::Plain => w2::EncTable::plain(t.tag, &t.data, explicit),
+            DKind::Glyf(g) => {
+                if p.group_xf[*g] {
+                    let grp = &b.groups[*g];
+                    let data = w2::transform_glyf(&grp.glyphs, if grp.long { 1 } else { 0 }, policy, forced, &mut ch, &mut st);
+                    w2::EncTable::transformed(t.tag, 0, t.data.len() as u32, data, explicit)
+                } else {
+                    w2::EncTable::plain(t.tag, &t.data, explicit)
+                }
+            }
+            DKind::Loca(g) => {
+                if p.group_xf[*g] {
+                    w2::EncTable::transformed(t.tag, 0, t.data.len() as u32, Vec::new(), explicit)
+                } else {
+                    w2::EncTable::plain(t.tag, &t.data, explicit)
+                }
+            }
+            DKind::Hmtx { metrics, nhm, .. } => {
+                if p.hmtx_flags[i] != 0 {
+                    w2::EncTable::transformed(t.tag, 1, t.data.len() as u32, w2::transform_hmtx(metrics, *nhm, p.hmtx_flags[i]), explicit)
+                } else {
+                    w2::EncTable::plain(t.tag, &t.data, explicit)
+                }
+            }
+        };
+        tabs.push(et);
+    }
+    let total: usize = tabs.iter().map(|t| t.data.len()).sum();
+    let min_chunk = if total > 8192 { 64 } else { 1 };
+    let opts = w2::ContainerOpts {
+        brotli: w2::BrotliOpts {
+            wbits: match e.wbits_sel {
+                0..=5 => 16,
+                s => 10 + (s - 6), // 10..=23
+            }
+            .min(24),
+            chunks: e.chunks.iter().map(|c| (*c).max(min_chunk)).collect(),
+            meta_every: e.meta_every,
+            meta_skip: e.meta_skip,
+        },
+        major: e.version.0,
+        minor: e.version.1,
+        metadata: e.metadata.clone(),
+        private: e.private.clone(),
+    };
+    let bytes = match &case.coll {
+        None => w2::encode_woff2(b.members[0].flavour, &tabs, None, &opts, &mut ch, &mut st),
+        Some(c) => {
+            let fonts = b
+                .members
+                .iter()
+                .enumerate()
+                .map(|(mi, m)| {
+                    let mut idx: Vec<u16> = m.tables.iter().map(|t| dir_pos[*t]).collect();
+                    if c.shuffle_indices {
+                        idx.sort_by_key(|i| (i.wrapping_mul(40503).wrapping_add(mi as u16 * 7)) & 0xFF);
+                    } else {
+                        idx.sort_by_key(|i| b.dtables[p.order[*i as usize]].tag);
+                    }
+                    (m.flavour, idx)
+                })
+                .collect();
+            let col = w2::EncCollection { version: if c.v2 { 0x0002_0000 } else { 0x0001_0000 }, fonts };
+            w2::encode_woff2(TTCF, &tabs, Some(&col), &opts, &mut ch, &mut st)
+        }
+    };
+    Encoded { bytes, stats: st }
+}
+
+// =========================================================================================
+// oracle
+
+fn tag_str(t: u32) -> String {
+    t.to_be_bytes().iter().map(|b| if (0x20..0x7F).contains(b) { *b as char } else { '?' }).collect()
+}
+
+type Got = BTreeMap<u32, Vec<u8>>;
+
+fn decode_member(bytes: &[u8], index: usize, via_fontdata: bool) -> Result<(u32, Got), Fail> {
+    if via_fontdata {
+        let fd = ReadScope::new(bytes).read::<FontData<'_>>().map_err(|e| fail("read", format!("FontData::read of a conforming WOFF2 file: {:?}", e)))?;
+        let p = fd.table_provider(index).map_err(|e| fail("provider", format!("table_provider({}): {:?}", index, e)))?;
+        let tags = p.table_tags().ok_or_else(|| fail("tag-set", "table_tags() returned None".into()))?;
+        let mut got = Got::new();
+        for t in tags {
+            let d = p
+                .table_data(t)
+                .map_err(|e| fail("table-data", format!("table_data({}): {:?}", tag_str(t), e)))?
+                .ok_or_else(|| fail("table-data", format!("table_data({}) is None for a listed tag", tag_str(t))))?;
+            got.insert(t, d.to_vec());
+        }
+        Ok((p.sfnt_version(), got))
+    } else {
+        let w = ReadScope::new(bytes).read::<Woff2Font<'_>>().map_err(|e| fail("read", format!("Woff2Font::read of a conforming WOFF2 file: {:?}", e)))?;
+        let p = w.table_provider(index).map_err(|e| fail("provider", format!("table_provider({}): {:?}", index, e)))?;
+        let fl = p.sfnt_version();
+        let got: Got = p.into_tables().into_iter().map(|(k, v)| (k, v.to_vec())).collect();
+        Ok((fl, got))
+    }
+}
+
+fn describe_glyph(g: &PGlyph) -> String {
+    crate::engine::util::truncate(&format!("{:?}", g), 400)
+}
+
+/// Compare reconstructed glyf/loca/head of one member with the model.
+fn check_glyf(mi: usize, grp: &Group, orig_head: &[u8], got: &Got) -> CaseResult {
+    let n = grp.glyphs.len();
+    let head = got.get(&u32::from_be_bytes(*b"head")).unwrap();
+    if head.len() != orig_head.len() {
+        return Err(fail("head", format!("font {}: head length {} != {}", mi, head.len(), orig_head.len())));
+    }
+    for (i, (a, b)) in head.iter().zip(orig_head.iter()).enumerate() {
+        if a != b && !(8..12).contains(&i) && !(50..52).contains(&i) {
+            return Err(fail("head", format!("font {}: head byte {} is {:#04x}, original {:#04x}", mi, i, a, b)));
+        }
+    }
+    let fmt = i16::from_be_bytes([head[50], head[51]]);
+    if fmt != 0 && fmt != 1 {
+        return Err(fail("head", format!("font {}: indexToLocFormat {}", mi, fmt)));
+    }
+    let glyf = got.get(&u32::from_be_bytes(*b"glyf")).unwrap();
+    let loca = got.get(&u32::from_be_bytes(*b"loca")).unwrap();
+    let parsed = gm::parse_glyf(glyf, loca, fmt == 1, n, true)
+        .map_err(|e| fail("glyf-loca-parse", format!("font {}: reconstructed glyf/loca (indexToLocFormat {}): {}", mi, fmt, e)))?;
+    for (i, (pg, g)) in parsed.iter().zip(grp.glyphs.iter()).enumerate() {
+        let want = expected_pglyph(g);
+        if *pg != want {
+            let sig = match (&want, pg) {
+                (PGlyph::Simple { .. }, PGlyph::Simple { .. }) => "glyph-simple",
+                (PGlyph::Composite { .. }, PGlyph::Composite { .. }) => "glyph-composite",
+                _ => "glyph-kind",
+            };
+            return Err(fail(sig, format!("font {} glyph {}: reconstructed {} expected {}", mi, i, describe_glyph(pg), describe_glyph(&want))));
+        }
+    }
+    Ok(())
+}
+
+fn check_hmtx(mi: usize, orig: &[u8], metrics: &[(u16, i16)], nhm: usize, grp: Option<&Group>, flags: u8, got: &[u8]) -> CaseResult {
+    if got == orig {
+        return Ok(());
+    }
+    let n = metrics.len();
+    // defect model: the monospaced tail is rebuilt from the xMin of *all* glyphs starting at
+    // glyph 0 instead of the glyphs numberOfHMetrics..numGlyphs
+    if let Some(g) = grp {
+        if flags & w2::HMTX_NO_MONOSPACE_LSB != 0 {
+            let mut model = orig[..4 * nhm].to_vec();
+            for gl in &g.glyphs {
+                model.extend_from_slice(&gl.x_min().to_be_bytes());
+            }
+            if got == &model[..] {
+                return Err(fail(
+                    KNOWN_HMTX,
+                    format!(
+                        "font {}: hmtx flags {:#04b}, numGlyphs {}, numberOfHMetrics {}: reconstructed hmtx has {} bytes (expected {}): the leftSideBearing[] tail holds xMin of glyphs 0..{} instead of glyphs {}..{}",
+                        mi, flags, n, nhm, got.len(), orig.len(), n, nhm, n
+                    ),
+                ));
+            }
+        }
+    }
+    match gm::parse_hmtx(got, n, nhm) {
+        Err(e) => Err(fail("hmtx", format!("font {} (hmtx flags {:#04b}): {}", mi, flags, e))),
+        Ok(v) => {
+            let i = (0..n).find(|i| v[*i] != metrics[*i]).unwrap_or(0);
+            Err(fail(
+                "hmtx",
+                format!("font {} (hmtx flags {:#04b}, numberOfHMetrics {}): glyph {} has (advance, lsb) {:?}, original {:?}", mi, flags, nhm, i, v[i], metrics[i]),
+            ))
+        }
+    }
+}
+
+/// Everything the decoder delivered for member `mi` against the encoder's input.
+fn check_member(mi: usize, b: &Built, p: &Plan, is_collection: bool, flavour: u32, got: &Got) -> CaseResult {
+    let mut deferred = None;
+    check_member_inner(mi, b, p, is_collection, flavour, got, &mut deferred)?;
+    match deferred {
+        Some(f) => Err(f),
+        None => Ok(()),
+    }
+}
+
+/// Failures attributed to a specific defect model (narrow signatures) are *deferred*: the rest of
+/// the member is still checked and any other discrepancy is reported first, so that such a
+/// defect does not hide different violations behind it.
+fn check_member_inner(mi: usize, b: &Built, p: &Plan, is_collection: bool, flavour: u32, got: &Got, deferred: &mut Option<Fail>) -> CaseResult {
+    let m = &b.members[mi];
+    let want_tags: BTreeSet<u32> = m.tables.iter().map(|t| u32::from_be_bytes(b.dtables[*t].tag)).collect();
+    let got_tags: BTreeSet<u32> = got.keys().copied().collect();
+    if want_tags != got_tags {
+        let missing: Vec<String> = want_tags.difference(&got_tags).map(|t| tag_str(*t)).collect();
+        let extra: Vec<String> = got_tags.difference(&want_tags).map(|t| tag_str(*t)).collect();
+        return Err(fail("tag-set", format!("font {}: missing {:?}, unexpected {:?}", mi, missing, extra)));
+    }
+    if flavour != m.flavour {
+        if is_collection && flavour == TTCF {
+            deferred.get_or_insert(fail(
+                "collection-member-flavour-ttcf",
+                format!("font {} of a collection: sfnt_version() is 'ttcf', the member's flavour is {:#010x}", mi, m.flavour),
+            ));
+        } else {
+            return Err(fail("flavour", format!("font {}: sfnt_version() {:#010x}, original {:#010x}", mi, flavour, m.flavour)));
+        }
+    }
+    let hmtx_i = m.tables.iter().copied().find(|t| matches!(b.dtables[*t].kind, DKind::Hmtx { .. })).unwrap();
+    let hmtx_flags = p.hmtx_flags[hmtx_i];
+    let glyf_xf = m.group.map(|g| p.group_xf[g]).unwrap_or(false);
+    // With hmtx transformed but glyf not (probe), a decoder may re-serialise glyf; that
+    // combination is only compared semantically.
+    let semantic = glyf_xf || (hmtx_flags != 0 && m.group.is_some());
+    for &t in &m.tables {
+        let dt = &b.dtables[t];
+        let g = got.get(&u32::from_be_bytes(dt.tag)).unwrap();
+        match &dt.kind {
+            DKind::Hmtx { group, metrics, nhm, .. } => {
+                if let Err(f) = check_hmtx(mi, &dt.data, metrics, *nhm, group.map(|x| &b.groups[x]), hmtx_flags, g) {
+                    if f.sig == format!("C11:{}", KNOWN_HMTX) {
+                        deferred.get_or_insert(f);
+                    } else {
+                        return Err(f);
+                    }
+                }
+            }
+            DKind::Glyf(_) | DKind::Loca(_) if semantic => {}
+            DKind::Plain if semantic && &dt.tag == b"head" => {}
+            _ => {
+                if g != &dt.data {
+                    let at = g.iter().zip(dt.data.iter()).position(|(a, b)| a != b).unwrap_or(g.len().min(dt.data.len()));
+                    return Err(fail(
+                        "untransformed-bytes",
+                        format!("font {}: table {} ({} bytes, original {}) differs from the original at byte {}", mi, tag_str(u32::from_be_bytes(dt.tag)), g.len(), dt.data.len(), at),
+                    ));
+                }
+            }
+        }
+    }
+    if semantic {
+        let head_i = m.tables.iter().copied().find(|t| &b.dtables[*t].tag == b"head").unwrap();
+        check_glyf(mi, &b.groups[m.group.unwrap()], &b.dtables[head_i].data, got)?;
+    }
+    Ok(())
+}
+
+/// Self-check of the harness: my reader applied to my source glyf/loca/hmtx returns the model.
+fn self_check(b: &Built) {
+    for g in &b.groups {
+        let parsed = gm::parse_glyf(&g.glyf, &g.loca, g.long, g.glyphs.len(), true).expect("own glyf does not parse");
+        for (i, (pg, gl)) in parsed.iter().zip(g.glyphs.iter()).enumerate() {
+            assert!(*pg == expected_pglyph(gl), "glyf_min(glyfgen(model)) != model at glyph {}", i);
+        }
+    }
+    for t in &b.dtables {
+        if let DKind::Hmtx { metrics, nhm, .. } = &t.kind {
+            let v = gm::parse_hmtx(&t.data, metrics.len(), *nhm).expect("own hmtx does not parse");
+            assert!(&v == metrics, "hmtx reader != model");
+        }
+    }
+}
+
+pub fn check_case(case: &Case, rec: &mut Rec) -> CaseResult {
+    let b = build(case);
+    self_check(&b);
+    let p = plan(case, &b);
+    let enc = encode(case, &b, &p, None);
+    rec.artefact("woff2", &enc.bytes);
+    rec.hash_bytes(&enc.bytes);
+    rec.guard_alloc(enc.bytes.len());
+    let is_coll = case.coll.is_some();
+
+    // classification
+    let st = &enc.stats;
+    let any_xf = p.group_xf.iter().any(|x| *x);
+    rec.set_nontrivial(any_xf && st.simple_ge3_points > 0);
+    rec.class(if any_xf { "glyf:transform-0" } else if b.groups.is_empty() { "glyf:none(CFF)" } else { "glyf:null-transform" });
+    rec.class_if(st.bbox_elided > 0, "bbox:elided");
+    rec.class_if(st.bbox_explicit_diff > 0, "bbox:explicit-different");
+    rec.class_if(st.bbox_explicit_equal > 0, "bbox:explicit-equal");
+    rec.class_if(st.composites > 0 && any_xf, "glyph:composite-transformed");
+    rec.class_if(st.empty > 0 && any_xf, "glyph:empty-transformed");
+    for (k, name) in ["u255:1-byte", "u255:code255", "u255:code254", "u255:code253"].iter().enumerate() {
+        rec.class_if(st.u255_forms[k] > 0, name);
+    }
+    let mut hmtx_only = false;
+    for (i, t) in b.dtables.iter().enumerate() {
+        if let DKind::Hmtx { group, metrics, nhm, .. } = &t.kind {
+            let f = p.hmtx_flags[i];
+            rec.class(&format!("hmtx:flags={}", f));
+            if f != 0 {
+                rec.class(if *nhm == metrics.len() { "hmtx:nHM=n" } else if *nhm == 1 { "hmtx:nHM=1" } else { "hmtx:1<nHM<n" });
+                rec.class_if(f & 2 != 0 && *nhm < metrics.len(), "hmtx:nHM<n+tail-elided");
+                if let Some(g) = group {
+                    if !p.group_xf[*g] {
+                        hmtx_only = true;
+                    }
+                }
+            }
+        }
+    }
+    rec.class_if(hmtx_only, "probe:hmtx-transformed+glyf-null");
+    rec.class(if is_coll { &["collection:1", "collection:2", "collection:3"][(b.members.len() - 1).min(2)] } else { "single" });
+    rec.class_if(b.dtables.iter().any(|t| w2::known_tag_index(&t.tag).is_none()), "tag:arbitrary");
+    rec.class_if(case.enc.explicit_mask != 0, "tag:known-written-explicitly");
+    rec.class_if(b.groups.iter().any(|g| g.long), "loca:long");
+    rec.class_if(b.groups.iter().any(|g| !g.long), "loca:short");
+    rec.class_if(b.dtables.iter().any(|t| &t.tag == b"BIGT"), "brotli:mlen>65536-possible");
+    {
+        // at most 20 triplet-bin labels per case, starting at a case dependent bin, so that
+        // the histogram shows every bin that is ever hit
+        let start = (enc.bytes.len() * 7 + b.dtables.len()) % 128;
+        let mut k = 0;
+        for j in 0..128 {
+            let bin = (start + j) % 128;
+            if st.triplet_bins[bin] > 0 {
+                rec.class(&format!("triplet-bin:{:03}", bin));
+                k += 1;
+                if k == 20 {
+                    break;
+                }
+            }
+        }
+    }
+    rec.sample(|| {
+        format!(
+            "{} bytes, {} font(s), tables {:?}, glyf xform {:?}, hmtx flags {:?}, glyph counts {:?}",
+            enc.bytes.len(),
+            b.members.len(),
+            p.order.iter().map(|i| tag_str(u32::from_be_bytes(b.dtables[*i].tag))).collect::<Vec<_>>(),
+            p.group_xf,
+            p.hmtx_flags.iter().filter(|f| **f != 0).collect::<Vec<_>>(),
+            b.groups.iter().map(|g| g.glyphs.len()).collect::<Vec<_>>()
+        )
+    });
+
+    let mut deferred: Option<Fail> = None;
+    for mi in 0..b.members.len() {
+        match decode_member(&enc.bytes, mi, case.enc.via_fontdata) {
+            Ok((fl, got)) => check_member_inner(mi, &b, &p, is_coll, fl, &got, &mut deferred)?,
+            Err(f) => {
+                // soft probe: hmtx transformed while glyf is not — a decoder may refuse it
+                // (it must not panic, and if it accepts the result must be right)
+                let m = &b.members[mi];
+                let hm = m.tables.iter().copied().find(|t| matches!(b.dtables[*t].kind, DKind::Hmtx { .. })).unwrap();
+                let glyf_xf = m.group.map(|g| p.group_xf[g]).unwrap_or(false);
+                if p.hmtx_flags[hm] != 0 && !glyf_xf && f.sig == "C11:provider" {
+                    rec.class("probe:hmtx-only-rejected");
+                    continue;
+                }
+                return Err(f);
+            }
+        }
+    }
+    if let Some(md) = &case.enc.metadata {
+        let w = ReadScope::new(&enc.bytes).read::<Woff2Font<'_>>().map_err(|e| fail("read", format!("{:?}", e)))?;
+        let got = w.extended_metadata().map_err(|e| fail("metadata", format!("extended_metadata(): {:?}", e)))?;
+        if got.as_deref().map(|s| s.as_bytes()) != Some(&md[..]) {
+            return Err(fail("metadata", format!("extended_metadata() = {:?}, stored {:?}", got, String::from_utf8_lossy(md))));
+        }
+        rec.class("container:metadata");
+    }
+    match deferred {
+        Some(f) => Err(f),
+        None => Ok(()),
+    }
+}
+
+// =========================================================================================
+// side sections
+
+fn check_u255_chunk(chunk: u64, rec: &mut Rec) -> CaseResult {
+    let mut evals = 0;
+    for lo in 0..256u32 {
+        let v = ((chunk as u32) << 8 | lo) as u16;
+        let forms = w2::u255_forms(v);
+        for f in &forms {
+            let mut bytes = f.clone();
+            bytes.push(0xA5);
+            let mut ctxt = ReadScope::new(&bytes).ctxt();
+            let got = ctxt.read::<PackedU16>().map_err(|e| fail("u255", format!("{:?} (value {}): {:?}", f, v, e)))?;
+            if got != v {
+                return Err(fail("u255", format!("{:?} decodes to {}, expected {}", f, got, v)));
+            }
+            let next = ctxt.read_u8().ok();
+            if next != Some(0xA5) || ctxt.bytes_available() {
+                return Err(fail("u255-length", format!("{:?} (value {}): reader did not consume exactly {} bytes", f, v, f.len())));
+            }
+            // every proper prefix is a truncated value
+            for cut in 0..f.len() {
+                if ReadScope::new(&f[..cut]).read::<PackedU16>().is_ok() {
+                    return Err(fail("u255-truncated", format!("prefix {:?} of {:?} was accepted", &f[..cut], f)));
+                }
+            }
+            evals += 1;
+        }
+    }
+    rec.evaluations(evals);
+    rec.nontrivial();
+    rec.hash_u64(chunk);
+    Ok(())
+}
+
+fn base128_values(i: u64) -> Vec<u32> {
+    // item 0: boundaries; other items: 64 pseudo-random values each
+    if i == 0 {
+        let mut v = vec![0u32, 1, 63, 127, 128, 255, 16383, 16384, (1 << 21) - 1, 1 << 21, (1 << 28) - 1, 1 << 28, u32::MAX - 1, u32::MAX];
+        for k in 0..32 {
+            let p = 1u32 << k;
+            v.extend_from_slice(&[p.wrapping_sub(1), p, p.wrapping_add(1)]);
+        }
+        v
+    } else {
+        (0..64u64)
+            .map(|k| {
+                let r = crate::engine::util::mix64(i * 64 + k);
+                // vary the magnitude: 1..=32 significant bits
+                (r as u32) >> ((r >> 32) % 32)
+            })
+            .collect()
+    }
+}
+
+fn check_base128_item(i: u64, rec: &mut Rec) -> CaseResult {
+    let rd = |b: &[u8]| ReadScope::new(b).read::<U32Base128>();
+    let mut evals = 0;
+    for v in base128_values(i) {
+        let enc = w2::uint_base128(v);
+        let mut bytes = enc.clone();
+        bytes.push(0x5A);
+        let mut ctxt = ReadScope::new(&bytes).ctxt();
+        let got = ctxt.read::<U32Base128>().map_err(|e| fail("uintbase128", format!("{:02x?} (value {}): {:?}", enc, v, e)))?;
+        if got != v {
+            return Err(fail("uintbase128", format!("{:02x?} decodes to {}, expected {}", enc, got, v)));
+        }
+        if ctxt.read_u8().ok() != Some(0x5A) || ctxt.bytes_available() {
+            return Err(fail("uintbase128-length", format!("{:02x?}: reader did not consume exactly {} bytes", enc, enc.len())));
+        }
+        // leading zero group(s) make the value illegal
+        let mut lead = vec![0x80u8];
+        lead.extend_from_slice(&enc);
+        if rd(&lead).is_ok() {
+            return Err(fail("uintbase128-leading-zero", format!("{:02x?} (leading zero) was accepted", lead)));
+        }
+        // truncated: continuation bit on the last byte
+        let mut cut = enc.clone();
+        *cut.last_mut().unwrap() |= 0x80;
+        if cut.len() < 5 && rd(&cut).is_ok() {
+            return Err(fail("uintbase128-truncated", format!("{:02x?} (no terminating byte) was accepted", cut)));
+        }
+        evals += 3;
+    }
+    if i == 0 {
+        // overflow: five groups whose value exceeds 2^32-1, and a six byte form
+        for b in [
+            vec![0x90u8, 0x80, 0x80, 0x80, 0x00],
+            vec![0xFF, 0xFF, 0xFF, 0xFF, 0x7F],
+            vec![0x9F, 0xFF, 0xFF, 0xFF, 0x7F],
+            vec![0x81, 0x80, 0x80, 0x80, 0x80, 0x00],
+            vec![0x8F, 0xFF, 0xFF, 0xFF, 0xFF, 0x7F],
+            vec![0x8F, 0xFF, 0xFF, 0xFF, 0xFF],
+        ] {
+            if let Ok(v) = rd(&b) {
+                return Err(fail("uintbase128-overflow", format!("{:02x?} (overflow / more than 5 bytes) was accepted as {}", b, v)));
+            }
+            evals += 1;
+        }
+        // largest legal
+        if rd(&[0x8F, 0xFF, 0xFF, 0xFF, 0x7F]).ok() != Some(u32::MAX) {
+            return Err(fail("uintbase128", "8F FF FF FF 7F is not 2^32-1".into()));
+        }
+    }
+    rec.evaluations(evals);
+    rec.nontrivial();
+    rec.hash_u64(i);
+    Ok(())
+}
+
+/// A case with fixed encoder options (used by the crafted sections).
+fn fixed_case(long: bool, glyf_xform: u8, hmtx_want: u8, via_fontdata: bool) -> Case {
+    Case {
+        font: FontRaw {
+            glyphs: vec![],
+            metrics: MetricsRaw { adv: vec![], lsb_noise: vec![], lsb_mode: 0, nhm_sel: 0, r: 0 },
+            long_loca: long,
+            align_sel: 0,
+            extras: vec![],
+            outline_sel: 1,
+            flavour_true: false,
+            big_table: 0,
+        },
+        coll: None,
+        enc: EncRaw {
+            glyf_xform: vec![glyf_xform],
+            hmtx_want: vec![hmtx_want],
+            hmtx_only_probe: 1,
+            order: vec![],
+            explicit_mask: 0,
+            choices: vec![],
+            bbox_choose: false,
+            wbits_sel: 0,
+            chunks: vec![65536],
+            meta_every: 0,
+            meta_skip: 0,
+            version: (1, 0),
+            metadata: None,
+            private: vec![],
+            via_fontdata,
+        },
+    }
+}
+
+/// payload samples for a field of `bits` bits with base `delta` (|value| must stay <= 32767 so
+/// that the way back to the origin is a legal glyf delta too)
+fn payload_samples(bits: u32, delta: i32, salt: u32) -> Vec<i32> {
+    if bits == 0 {
+        return vec![0];
+    }
+    let max_field = (1i64 << bits) - 1;
+    let max = max_field.min((32767 - delta) as i64) as i32;
+    let mut v = vec![0, 1, max / 2, max - 1, max, (salt as i32 * 2654435 & 0x7FFF_FFFF) % (max + 1)];
+    v.retain(|x| *x >= 0 && *x <= max);
+    v.sort();
+    v.dedup();
+    v
+}
+
+/// One crafted font per triplet row: glyph 1 has a single contour that alternates a point
+/// reached through the forced row (with a sampled payload) and the origin.
+fn check_triplet_row(item: u64, rec: &mut Rec) -> CaseResult {
+    let idx = (item % 128) as u8;
+    let variant = (item / 128) as u32; // 0: points on-curve, 1: off-curve, long loca
+    let t = w2::triplet_entry(idx);
+    let xs = payload_samples(t.x_bits, t.delta_x, idx as u32 + 1);
+    let ys = payload_samples(t.y_bits, t.delta_y, idx as u32 + 77);
+    let mut pts: Vec<gg::Pt> = Vec::new();
+    let mut forced = w2::ForcedTriplets::new();
+    for xv in &xs {
+        for yv in &ys {
+            // raw field values -> data bytes -> (dx, dy) through my implementation of the table
+            let total = 8 * t.data_bytes as u32;
+            let mut word: u64 = 0;
+            if t.x_bits > 0 {
+                word |= (*xv as u64) << (total - t.x_bits);
+            }
+            if t.y_bits > 0 {
+                word |= (*yv as u64) << (total - t.x_bits - t.y_bits);
+            }
+            let data: Vec<u8> = (0..t.data_bytes).map(|i| (word >> (8 * (t.data_bytes - 1 - i))) as u8).collect();
+            let (dx, dy) = w2::triplet_decode(idx, &data);
+            assert!(w2::triplet_encode(idx, dx, dy) == data, "triplet encode/decode disagree for row {}", idx);
+            assert!(w2::triplet_candidates(dx, dy).contains(&idx), "row {} not a candidate for its own decoding", idx);
+            forced.insert((1, pts.len()), idx);
+            pts.push((dx as i16, dy as i16, variant == 0));
+            pts.push((0, 0, variant != 0));
+        }
+    }
+    let npts = pts.len();
+    let mut s = Simple { contours: vec![pts], instructions: vec![], bbox: (0, 0, 0, 0) };
+    s.bbox = s.computed_bbox();
+    let glyphs = vec![Glyph::Empty, Glyph::Simple(s)];
+    let long = variant != 0;
+    let (glyf, loca) = gg::encode_glyf_loca(&glyphs, &[0, 0], long, 2);
+    let mut b = Built::default();
+    b.groups.push(Group { glyphs, long, glyf: glyf.clone(), loca: loca.clone() });
+    let metrics = vec![(500u16, 0i16), (600, 10)];
+    let mut tables = vec![
+        push(&mut b, *b"head", head_table(long, 0x0001_0000), DKind::Plain),
+        push(&mut b, *b"hhea", basic::hhea(800, -200, 600, 2), DKind::Plain),
+        push(&mut b, *b"maxp", basic::maxp_v1(2), DKind::Plain),
+    ];
+    tables.push(push(&mut b, *b"hmtx", basic::hmtx(&metrics, 2), DKind::Hmtx { group: Some(0), metrics, nhm: 2, legal: 0 }));
+    tables.push(push(&mut b, *b"glyf", glyf, DKind::Glyf(0)));
+    tables.push(push(&mut b, *b"loca", loca, DKind::Loca(0)));
+    b.members.push(Member { flavour: sfnt::TTF, tables, group: Some(0) });
+    self_check(&b);
+    let case = fixed_case(long, 1, 0, variant != 0);
+    let p = plan(&case, &b);
+    let enc = encode(&case, &b, &p, Some(&forced));
+    assert!(enc.stats.triplet_bins[idx as usize] as usize >= npts / 2);
+    rec.artefact("woff2", &enc.bytes);
+    rec.hash_bytes(&enc.bytes);
+    let (fl, got) = decode_member(&enc.bytes, 0, case.enc.via_fontdata).map_err(|f| fail("triplet", format!("row {}: {} ({})", idx, f.msg, f.sig)))?;
+    check_member(0, &b, &p, false, fl, &got).map_err(|f| {
+        if f.sig == "C11:glyph-simple" {
+            fail("triplet", format!("triplet row {} ({:?}): {}", idx, t, f.msg))
+        } else {
+            f
+        }
+    })?;
+    rec.evaluations((npts / 2) as u64);
+    rec.nontrivial();
+    rec.class(&format!("triplet-row-bytes:{}", t.data_bytes));
+    Ok(())
+}
+
+/// Fonts at the upper end of the glyph-count range (the bbox bitmap has
+/// 4*floor((numGlyphs+31)/32) bytes): a few real glyphs at both ends, empty glyphs between.
+fn check_glyph_count(item: u64, rec: &mut Rec) -> CaseResult {
+    if item == 9 {
+        return check_short_to_long(rec);
+    }
+    let n = [65504usize, 65505, 65535][(item % 3) as usize];
+    let variant = item / 3; // 0: short loca, no hmtx transform; 1: long loca, hmtx flags 1; 2: long loca, hmtx flags 3
+    let long = variant >= 1;
+    let rect = |x0: i16, y0: i16, x1: i16, y1: i16| {
+        let mut s = Simple { contours: vec![vec![(x0, y0, true), (x0, y1, false), (x1, y1, true), (x1, y0, true)]], instructions: vec![1, 2, 3], bbox: (0, 0, 0, 0) };
+        s.bbox = s.computed_bbox();
+        Glyph::Simple(s)
+    };
+    let comp = |g: u16, bbox| {
+        Glyph::Composite(Composite {
+            components: vec![Component { misc_flags: gg::ARGS_ARE_XY_VALUES, words: true, glyph: g, arg1: -300, arg2: 40, xform: Xform::Scale(0x2000) }],
+            instructions: Some(vec![9, 8]),
+            bbox,
+        })
+    };
+    let mut glyphs = vec![Glyph::Empty; n];
+    glyphs[0] = rect(10, 0, 500, 700);
+    glyphs[1] = comp(0, (-7, -8, 900, 901));
+    glyphs[n - 3] = rect(-20, -30, 40, 50);
+    glyphs[n - 2] = rect(5, 6, 7, 8);
+    if let Glyph::Simple(s) = &mut glyphs[n - 2] {
+        s.bbox = (1, 2, 3, 4); // explicit, different from the computed box
+    }
+    glyphs[n - 1] = comp(1, (11, 12, 13, 14));
+    let styles = vec![0u8; n];
+    let (glyf, loca) = gg::encode_glyf_loca(&glyphs, &styles, long, 2);
+    let metrics: Vec<(u16, i16)> = glyphs.iter().enumerate().map(|(i, g)| (if i == 0 { 777 } else { 777 }, g.x_min())).collect();
+    let mut b = Built::default();
+    b.groups.push(Group { glyphs, long, glyf: glyf.clone(), loca: loca.clone() });
+    let mut tables = vec![
+        push(&mut b, *b"head", head_table(long, 0x0001_0000), DKind::Plain),
+        push(&mut b, *b"hhea", basic::hhea(800, -200, 777, 1), DKind::Plain),
+        push(&mut b, *b"maxp", basic::maxp_v1(n as u16), DKind::Plain),
+    ];
+    tables.push(push(&mut b, *b"hmtx", basic::hmtx(&metrics, 1), DKind::Hmtx { group: Some(0), metrics, nhm: 1, legal: 3 }));
+    tables.push(push(&mut b, *b"glyf", glyf, DKind::Glyf(0)));
+    tables.push(push(&mut b, *b"loca", loca, DKind::Loca(0)));
+    b.members.push(Member { flavour: sfnt::TTF, tables, group: Some(0) });
+    let case = fixed_case(long, 1, [0, 1, 3][variant as usize], variant == 1);
+    let p = plan(&case, &b);
+    let enc = encode(&case, &b, &p, None);
+    rec.hash_bytes(&enc.bytes);
+    rec.guard_alloc(enc.bytes.len());
+    let (fl, got) = decode_member(&enc.bytes, 0, case.enc.via_fontdata).map_err(|f| Fail::new(f.sig, format!("numGlyphs {}: {}", n, f.msg)))?;
+    check_member(0, &b, &p, false, fl, &got).map_err(|f| Fail::new(f.sig, format!("numGlyphs {}: {}", n, f.msg)))?;
+    rec.evaluations(n as u64);
+    rec.nontrivial();
+    rec.class(&format!("numGlyphs:{}", n));
+    Ok(())
+}
+
+/// A short-loca font whose compactly encoded glyf fits 16-bit offsets while a glyf with
+/// 16-bit deltas for every point does not: the decoder has to deliver a loca/head pair that is
+/// consistent with whatever glyf it writes.
+fn check_short_to_long(rec: &mut Rec) -> CaseResult {
+    let n = 4600usize;
+    let glyphs: Vec<Glyph> = (0..n)
+        .map(|i| {
+            let k = (i % 50) as i16;
+            let mut s = Simple { contours: vec![vec![(k, 0, true), (k + 5, 9, false), (k + 9, 3, true), (k + 2, -4, true)]], instructions: vec![], bbox: (0, 0, 0, 0) };
+            s.bbox = s.computed_bbox();
+            Glyph::Simple(s)
+        })
+        .collect();
+    let styles = vec![gg::STYLE_SHORT | gg::STYLE_SAME | gg::STYLE_REPEAT; n];
+    let (glyf, loca) = gg::encode_glyf_loca(&glyphs, &styles, false, 2);
+    assert!(glyf.len() <= 131_070 && n * 34 > 131_070, "short-to-long construction is off: {}", glyf.len());
+    let metrics: Vec<(u16, i16)> = glyphs.iter().map(|g| (600, g.x_min())).collect();
+    let mut b = Built::default();
+    b.groups.push(Group { glyphs, long: false, glyf: glyf.clone(), loca: loca.clone() });
+    let mut tables = vec![
+        push(&mut b, *b"head", head_table(false, 0x0001_0000), DKind::Plain),
+        push(&mut b, *b"hhea", basic::hhea(800, -200, 600, n as u16), DKind::Plain),
+        push(&mut b, *b"maxp", basic::maxp_v1(n as u16), DKind::Plain),
+    ];
+    tables.push(push(&mut b, *b"hmtx", basic::hmtx(&metrics, n as u16), DKind::Hmtx { group: Some(0), metrics, nhm: n, legal: 3 }));
+    tables.push(push(&mut b, *b"glyf", glyf, DKind::Glyf(0)));
+    tables.push(push(&mut b, *b"loca", loca, DKind::Loca(0)));
+    b.members.push(Member { flavour: sfnt::TTF, tables, group: Some(0) });
+    self_check(&b);
+    let case = fixed_case(false, 1, 1, false);
+    let p = plan(&case, &b);
+    let enc = encode(&case, &b, &p, None);
+    rec.hash_bytes(&enc.bytes);
+    let (fl, got) = decode_member(&enc.bytes, 0, false)?;
+    check_member(0, &b, &p, false, fl, &got).map_err(|f| Fail::new(f.sig, format!("short-loca font with {} glyphs: {}", n, f.msg)))?;
+    let head = &got[&u32::from_be_bytes(*b"head")];
+    rec.class(if head[51] == 1 { "short-to-long:decoder-switched-to-long" } else { "short-to-long:decoder-kept-short" });
+    rec.evaluations(n as u64);
+    rec.nontrivial();
+    Ok(())
+}
+
+// ---- fixtures
+
+fn be16(d: &[u8], at: usize) -> u16 {
+    u16::from_be_bytes([d[at], d[at + 1]])
+}
+
+/// PGlyph -> model glyph; None if the record uses something the model cannot express exactly
+fn glyph_from_parsed(p: &PGlyph) -> Option<Glyph> {
+    Some(match p {
+        PGlyph::Empty => Glyph::Empty,
+        PGlyph::Simple { bbox, contours, instructions } => {
+            if contours.iter().any(|c| c.is_empty()) {
+                return None;
+            }
+            let mut cs = Vec::new();
+            for c in contours {
+                let mut v = Vec::new();
+                for p in c {
+                    v.push((i16::try_from(p.0).ok()?, i16::try_from(p.1).ok()?, p.2));
+                }
+                cs.push(v);
+            }
+            // consecutive deltas must be representable (|d| <= 32768)
+            Glyph::Simple(Simple { contours: cs, instructions: instructions.clone(), bbox: *bbox })
+        }
+        PGlyph::Composite { bbox, components, instructions } => {
+            let comps: Vec<Component> = components
+                .iter()
+                .map(|c| Component {
+                    misc_flags: c.flags & gg::FREE_COMPONENT_FLAGS,
+                    words: c.flags & gg::ARG_1_AND_2_ARE_WORDS != 0,
+                    glyph: c.glyph,
+                    arg1: c.arg1,
+                    arg2: c.arg2,
+                    xform: match c.xform.len() {
+                        0 => Xform::None,
+                        1 => Xform::Scale(c.xform[0]),
+                        2 => Xform::XY(c.xform[0], c.xform[1]),
+                        _ => Xform::Matrix(c.xform[0], c.xform[1], c.xform[2], c.xform[3]),
+                    },
+                })
+                .collect();
+            let g = Glyph::Composite(Composite { components: comps, instructions: instructions.clone(), bbox: *bbox });
+            if expected_pglyph(&g) != *p {
+                return None; // reserved flag bits, WE_HAVE_INSTRUCTIONS on an inner component, ...
+            }
+            g
+        }
+    })
+}
+
+/// The decoded WOFF2 fixtures with a known source font, and real TrueType fixtures pushed
+/// through my encoder.
+fn fixture_items() -> Vec<(String, Option<String>, u8)> {
+    let mut v: Vec<(String, Option<String>)> = vec![
+        ("fonts/woff2/test-font.woff2".into(), Some("fonts/opentype/test-font.ttf".into())),
+        ("fonts/woff2/SFNT-TTF-Composite.woff2".into(), Some("fonts/opentype/SFNT-TTF-Composite.ttf".into())),
+        ("fonts/woff2/roundtrip-hmtx-lsb-001.woff2".into(), None),
+        ("fonts/woff2/roundtrip-offset-tables-001.woff2".into(), None),
+        ("fonts/woff2/TestSVGgzip.woff2".into(), None),
+        ("fonts/woff2/test_glyf_loca_null_transforms.woff2".into(), None),
+    ];
+    let mut v: Vec<(String, Option<String>, u8)> = v.into_iter().map(|(a, b)| (a, b, 0)).collect();
+    // TrueType fixtures: mode 0 = null transform, transform 0, transform 0 + hmtx flag bit 0;
+    // mode 1 = transform 0 + hmtx flag bits 0 and 1 (a separate item because of the known finding)
+    for f in fixtures::list("fonts", &["ttf"], 65536) {
+        v.push((f.clone(), None, 0));
+        v.push((f, None, 1));
+    }
+    v
+}
+
+fn sfnt_tables(data: &[u8]) -> Option<(u32, Vec<(Tag, Vec<u8>)>)> {
+    let (fl, dir) = sfnt::parse_directory(data)?;
+    let mut v = Vec::new();
+    for e in dir {
+        let d = data.get(e.offset as usize..(e.offset as usize).checked_add(e.length as usize)?)?;
+        v.push((e.tag, d.to_vec()));
+    }
+    Some((fl, v))
+}
+
+fn check_fixture(item: u64, rec: &mut Rec) -> CaseResult {
+    let items = fixture_items();
+    let (path, source, mode) = &items[item as usize];
+    let Some(bytes) = fixtures::read(path) else {
+        rec.class("fixture:missing");
+        return Ok(());
+    };
+    rec.hash_bytes(path.as_bytes());
+    if path.ends_with(".woff2") {
+        // real WOFF2 files load through the same API calls the generated ones use
+        let w = ReadScope::new(&bytes).read::<Woff2Font<'_>>().map_err(|e| fail("fixture-read", format!("{}: {:?}", path, e)))?;
+        let nfonts = w.collection_directory.as_ref().map(|d| d.fonts().count()).unwrap_or(1);
+        for i in 0..nfonts {
+            let (_, got) = decode_member(&bytes, i, i % 2 == 0).map_err(|f| fail("fixture-provider", format!("{}: {}", path, f.msg)))?;
+            // glyf/loca/hmtx delivered for the fixture must at least parse consistently
+            if let (Some(glyf), Some(loca), Some(head), Some(maxp), Some(hhea), Some(hmtx)) = (
+                got.get(&u32::from_be_bytes(*b"glyf")),
+                got.get(&u32::from_be_bytes(*b"loca")),
+                got.get(&u32::from_be_bytes(*b"head")),
+                got.get(&u32::from_be_bytes(*b"maxp")),
+                got.get(&u32::from_be_bytes(*b"hhea")),
+                got.get(&u32::from_be_bytes(*b"hmtx")),
+            ) {
+                let n = be16(maxp, 4) as usize;
+                let parsed = gm::parse_glyf(glyf, loca, be16(head, 50) == 1, n, false).map_err(|e| fail("fixture-glyf", format!("{} font {}: {}", path, i, e)))?;
+                let nhm = be16(hhea, 34) as usize;
+                let hm = match gm::parse_hmtx(hmtx, n, nhm) {
+                    Ok(v) => v,
+                    Err(e) => {
+                        // attribution to the known finding: the file's hmtx transform has flag bit 1
+                        // (read through allsorts' container API, used for attribution only) and the
+                        // delivered table is exactly the defect model's output
+                        let flags = w
+                            .find_table_entry(allsorts::tag::HMTX, i)
+                            .filter(|e| e.transform_length.is_some())
+                            .and_then(|e| e.read_table(&w.table_data_block_scope()).ok())
+                            .and_then(|t| t.scope().data().first().copied())
+                            .unwrap_or(0);
+                        let xmins: Vec<u8> = parsed
+                            .iter()
+                            .flat_map(|g| {
+                                match g {
+                                    PGlyph::Empty => 0i16,
+                                    PGlyph::Simple { bbox, .. } | PGlyph::Composite { bbox, .. } => bbox.0,
+                                }
+                                .to_be_bytes()
+                            })
+                            .collect();
+                        if flags & w2::HMTX_NO_MONOSPACE_LSB != 0 && nhm <= n && hmtx.len() == 4 * nhm + 2 * n && hmtx[4 * nhm..] == xmins[..] {
+                            return Err(fail(KNOWN_HMTX, format!("{} font {}: hmtx flags {:#04b}: {} (leftSideBearing[] holds xMin of glyphs 0..{})", path, i, flags, e, n)));
+                        }
+                        return Err(fail("fixture-hmtx", format!("{} font {}: {}", path, i, e)));
+                    }
+                };
+                if let Some(src) = source {
+                    if let Some(sb) = fixtures::read(src) {
+                        let (_, st) = sfnt_tables(&sb).ok_or_else(|| fail("fixture-source", format!("{} unreadable", src)))?;
+                        let tb = |t: &[u8; 4]| st.iter().find(|e| &e.0 == t).map(|e| &e.1[..]);
+                        let (sg, sl, sh, sm, shh, shm) =
+                            (tb(b"glyf").unwrap(), tb(b"loca").unwrap(), tb(b"head").unwrap(), tb(b"maxp").unwrap(), tb(b"hhea").unwrap(), tb(b"hmtx").unwrap());
+                        let sn = be16(sm, 4) as usize;
+                        let sp = gm::parse_glyf(sg, sl, be16(sh, 50) == 1, sn, false).expect("source fixture glyf");
+                        let shmv = gm::parse_hmtx(shm, sn, be16(shh, 34) as usize).expect("source fixture hmtx");
+                        if sp != parsed {
+                            let k = sp.iter().zip(parsed.iter()).position(|(a, b)| a != b).unwrap_or(0);
+                            return Err(fail(
+                                "fixture-glyph",
+                                format!("{} glyph {}: decoded {} source {}", path, k, describe_glyph(&parsed[k.min(parsed.len() - 1)]), describe_glyph(&sp[k])),
+                            ));
+                        }
+                        if shmv != hm {
+                            return Err(fail("fixture-hmtx", format!("{}: decoded hmtx differs from {}", path, src)));
+                        }
+                        rec.class("fixture:woff2-vs-source-ttf");
+                    }
+                }
+                rec.evaluations(n as u64);
+            }
+        }
+        rec.class("fixture:woff2");
+        rec.nontrivial();
+        return Ok(());
+    }
+    // a real TrueType font: re-encode with my encoder (transformed and null) and decode
+    let Some((fl, tabs)) = sfnt_tables(&bytes) else {
+        rec.class("fixture:not-sfnt");
+        return Ok(());
+    };
+    let tb = |t: &[u8; 4]| tabs.iter().find(|e| &e.0 == t).map(|e| &e.1[..]);
+    let (Some(glyf), Some(loca), Some(head), Some(maxp), Some(hhea), Some(hmtx)) = (tb(b"glyf"), tb(b"loca"), tb(b"head"), tb(b"maxp"), tb(b"hhea"), tb(b"hmtx")) else {
+        rec.class("fixture:no-glyf");
+        return Ok(());
+    };
+    if head.len() < 54 || maxp.len() < 6 || hhea.len() < 36 {
+        rec.class("fixture:skipped");
+        return Ok(());
+    }
+    let n = be16(maxp, 4) as usize;
+    let long = be16(head, 50) == 1;
+    let nhm = be16(hhea, 34) as usize;
+    let (Ok(parsed), Ok(metrics)) = (gm::parse_glyf(glyf, loca, long, n, false), gm::parse_hmtx(hmtx, n, nhm)) else {
+        rec.class("fixture:skipped-unparsable");
+        return Ok(());
+    };
+    let mut glyphs = Vec::new();
+    for p in &parsed {
+        match glyph_from_parsed(p) {
+            Some(g) => glyphs.push(g),
+            None => {
+                rec.class("fixture:skipped-inexpressible");
+                return Ok(());
+            }
+        }
+    }
+    // deltas between consecutive points must fit the glyf format (they do in a real font)
+    let mut legal = 0u8;
+    if (0..nhm).all(|i| metrics[i].1 == glyphs[i].x_min()) {
+        legal |= 1;
+    }
+    if (nhm..n).all(|i| metrics[i].1 == glyphs[i].x_min()) {
+        legal |= 2;
+    }
+    let variants: &[u8] = if *mode == 0 { &[0, 1, 2] } else { &[3] };
+    for &variant in variants {
+        let mut b = Built::default();
+        b.groups.push(Group { glyphs: glyphs.clone(), long, glyf: glyf.to_vec(), loca: loca.to_vec() });
+        let mut tables = Vec::new();
+        for (tag, data) in &tabs {
+            if tag == b"DSIG" {
+                continue;
+            }
+            let kind = match tag {
+                b"glyf" => DKind::Glyf(0),
+                b"loca" => DKind::Loca(0),
+                b"hmtx" => DKind::Hmtx { group: Some(0), metrics: metrics.clone(), nhm, legal },
+                _ => DKind::Plain,
+            };
+            tables.push(push(&mut b, *tag, data.clone(), kind));
+        }
+        b.members.push(Member { flavour: fl, tables, group: Some(0) });
+        let mut case = fixed_case(long, if variant == 0 { 0 } else { 1 }, [0, 0, 1, 3][variant as usize], variant == 1);
+        case.enc.wbits_sel = variant * 6;
+        case.enc.chunks = vec![65536, 1000];
+        if variant >= 2 {
+            case.enc.order = vec![7, 3, 11];
+            case.enc.explicit_mask = 0x5555_5555;
+            case.enc.choices = vec![item as u8, 3, 1, 2, 0, 1];
+            case.enc.bbox_choose = true;
+        }
+        let p = plan(&case, &b);
+        let enc = encode(&case, &b, &p, None);
+        if variant == 1 {
+            rec.artefact("woff2", &enc.bytes);
+        }
+        let (f, got) = decode_member(&enc.bytes, 0, case.enc.via_fontdata).map_err(|f| fail("fixture-reencode", format!("{} variant {}: {} ({})", path, variant, f.msg, f.sig)))?;
+        check_member(0, &b, &p, false, f, &got).map_err(|f| Fail::new(f.sig, format!("{} variant {}: {}", path, variant, f.msg)))?;
+        rec.evaluations(n as u64);
+        rec.class_if(p.hmtx_flags.iter().any(|f| *f != 0), "fixture:ttf-hmtx-transformed");
+    }
+    rec.class("fixture:ttf-reencoded");
+    rec.nontrivial();
+    Ok(())
+}
 
 impl Property for C11 {
     fn id(&self) -> &'static str {
         "C11"
     }
     fn rule(&self) -> String {
-        "not implemented".to_string()
+        "Cases: generated TrueType (and a few CFF-flavoured) font models -> own glyf/loca/hmtx encoders -> own WOFF2 encoder \
+         (W3C Rec; brotli stored meta-blocks) with free choices (glyf/loca transform 0 or null, hmtx transform flags 1/2/3 when legal, \
+         directory order, known-tag index or explicit tag, every legal 255UInt16 form, any representable triplet row per point, explicit or elided \
+         simple bbox, 1-3 collection members sharing tables, brotli window/meta-block split, metadata/private blocks) -> Woff2Font/FontData -> \
+         table_provider(i) compared with the encoder input. Non-trivial = the glyf transform is applied and at least one simple glyph has >= 3 points; \
+         distinct = distinct WOFF2 file bytes. Side sections: every u16 under every 255UInt16 form (exhaustive), UIntBase128 boundaries + rejections, \
+         all 128 triplet rows x payload samples x on/off-curve through crafted one-glyph files (exhaustive over rows), WOFF2 fixtures and re-encoded \
+         TrueType fixtures. Soft probe (1/16 of cases): hmtx transformed while glyf is null-transformed — the decoder may reject but must not panic, \
+         and if it accepts the tables must be right (glyf compared semantically). Known finding C11:hmtx-lsb-array-not-skipping-long-metrics is matched by a defect model \
+         (hmtx flag bit 1 set and delivered hmtx == correct long metrics ++ xMin of all glyphs from glyph 0); it is reported only after every other check of the case has passed."
+            .into()
     }
-    fn run(&self, _ctx: &mut Ctx) {}
+    fn assumptions(&self) -> Vec<String> {
+        vec![
+            "my WOFF2 encoder follows the W3C Recommendation (it was written from the specification text, not from allsorts); its triplet table is cross-checked only against allsorts' behaviour and the real fixtures".into(),
+            "coordinate deltas stay within what a glyf table can hold (|delta| <= 32767, or -32768); contours have >= 1 point; WE_HAVE_INSTRUCTIONS only on the last component; no reserved composite flag bits; no OVERLAP_SIMPLE (overlapSimpleBitmap is not generated)".into(),
+            "loca directly follows its glyf in the table directory; hmtx transform bits are only set when the elided side bearings equal the stored xMin (0 for empty glyphs)".into(),
+            "the brotli decompressor (third-party crate) is trusted; only stored meta-blocks are produced".into(),
+            "head is compared except checkSumAdjustment and indexToLocFormat (the latter must be 0/1 and agree with the delivered loca)".into(),
+        ]
+    }
+    fn run(&self, ctx: &mut Ctx) {
+        let n = ctx.cases(40_000, 1_000_000);
+        ctx.section("fonts", n, case_strategy(), |c, rec| check_case(c, rec));
+        ctx.enumerate("u255-exhaustive", 256, true, check_u255_chunk);
+        let n = if ctx.thorough() { 4096 } else { 512 };
+        ctx.enumerate("uintbase128", n, false, check_base128_item);
+        ctx.enumerate("triplet-rows", 256, true, check_triplet_row);
+        ctx.enumerate("glyph-count-boundaries", 10, true, check_glyph_count);
+        let n = fixture_items().len() as u64;
+        ctx.enumerate("fixtures", n, true, check_fixture);
+    }
 }
